@@ -10,6 +10,7 @@ STRUCT = {"model:top", "model:mid", "model:base", "model:clean", "model:ll", "mo
 READS = {"model:gets", "model:iter", "tmodel:reads"}
 STRUCT |= {"tmodel:coll", "tmodel:top", "tmodel:mid", "tmodel:base", "tmodel:clean", "tmodel:ll",
            "tmodel:store", "tmodel:cached", "tmodel:not-enabled", "tmodel:dirtysegs", "tmodel:dirtyops",
+           "tmodel:theorem-system-differs",
            "tspec:unexpected-error"}
 TREE = ("coll", "tree", "treerun")
 HELD = "held"
